@@ -90,6 +90,22 @@ LayerStep(st) ==
 RECURSIVE LayerRun(_)
 LayerRun(st) == IF LayerDone(st) THEN st ELSE LayerRun(LayerStep(st))
 
+\* ---- histories: several constructions in ONE process.  Every construction copies the class-level
+\* Configuration.defaults (make_defaults) and writes only into its copy: the Default layer `cls` is the same
+\* constant for all of them, whatever files the earlier constructions have read.
+\* con = [kind, files, cmd, load]; load = FALSE is Configuration(load_config=False): no file is read.
+Absents(n) == [k \in 1..n |-> "absent"]
+ConFiles(con) == IF con.load THEN con.files ELSE <<>>
+StartCon(con, base) ==
+   [LayerInit(con.kind, ConFiles(con), con.cmd, Absents(Len(ConFiles(con))), "absent", FALSE) EXCEPT !.store = base]
+HistInit(cons) == [cons |-> cons, k |-> 1, cls |-> <<"d">>, results |-> <<>>, cur |-> StartCon(cons[1], <<"d">>)]
+HistDone(h) == h.k > Len(h.cons)
+HistStep(h) ==
+   IF HistDone(h) THEN h
+   ELSE IF ~LayerDone(h.cur) THEN [h EXCEPT !.cur = LayerStep(h.cur)]      \* works on the copy: h.cls is not touched
+   ELSE [h EXCEPT !.results = Append(@, h.cur.store), !.k = @ + 1,
+                  !.cur = IF h.k + 1 <= Len(h.cons) THEN StartCon(h.cons[h.k + 1], h.cls) ELSE @]
+
 \* ---- the rule the property states
 Assigned(files) == {k \in DOMAIN files : files[k] # "absent"}
 Resolve(files, cmd) == IF cmd # "absent" THEN <<CTok(cmd)>>
